@@ -328,4 +328,72 @@ NV_READ_REQ(1) \
 __CPROVER_ensures(self->m_storage.index == 6 ==> (!nv_thrown && NV_RET.id == self->m_storage.a6.id)) \
 __CPROVER_ensures(self->m_storage.index != 6 ==> nv_thrown)
 
+/* ------------------------------------------------------------------ src/configurable.cpp
+ * "unknown parameter names throw" (mandatory lookup), optional lookup returns null, "duplicate-name rejection":
+ * register_parameter with a name already present throws and leaves the list unchanged, else appends exactly it.
+ * parameters_t = std::vector<parameter_t> as pointer + length (one slot of spare capacity for emplace_back);
+ * std::string_view and std::string share the id space (equality of contents). */
+struct nv_params { struct nv_parameter* p; int64_t n; };
+struct nv_configurable { int32_t m_major_version, m_minor_version, m_patch_version; struct nv_params m_parameters; };
+#define NV_PARAMS_OK(v) ((v).n >= 0 && (v).n <= NV_MAXN && __CPROVER_is_fresh((v).p, ((v).n + 1) * sizeof(struct nv_parameter)))
+int64_t nv_g_par;        /* ghost: an arbitrary position of the parameter list, fixed before the call */
+int64_t nv_w_find_par;   /* witness: the position std::find_if returned */
+_Bool find_param_pred(struct nv_parameter* param, struct nv_str name);   /* the extracted lambda of ::find_param */
+/* ASSUMED contract of std::find_if(first, last, pred): the first position whose element satisfies pred, else last
+ * (pred is the real lambda; stated at the ghost index) */
+static struct nv_parameter* nv_find_if_param(struct nv_parameter* begin, struct nv_parameter* end, struct nv_str name)
+{
+  int64_t n = end - begin, idx = nv_nondet_int64_t();
+  __CPROVER_assume(0 <= idx && idx <= n);
+  if (idx < n) __CPROVER_assume(find_param_pred(&begin[idx], name));
+  if (0 <= nv_g_par && nv_g_par < idx) __CPROVER_assume(!find_param_pred(&begin[nv_g_par], name));
+  nv_w_find_par = idx;
+  return begin + idx;
+}
+/* ASSUMED contract of std::vector::emplace_back(T&&): appends one element equal to the argument, keeps the others
+ * (reallocation is not modelled: element addresses are not part of any contract here) */
+static void nv_params_emplace_back(struct nv_params* v, struct nv_parameter* x) { v->p[v->n] = *x; v->n = v->n + 1; }
+
+#define NV_NAME_AT(v, j) ((v).p[j].m_name.id)
+#define NV_G_IN(v) (0 <= nv_g_par && nv_g_par < (v).n)
+#define NV_POST_LOOKUP(v, MAND) \
+__CPROVER_ensures(NV_RET != NULL ==> (!nv_thrown && 0 <= nv_w_find_par && nv_w_find_par < (v).n && NV_RET == (v).p + nv_w_find_par && NV_RET->m_name.id == name.id)) \
+__CPROVER_ensures((NV_RET == NULL && !nv_thrown) ==> !(MAND)) \
+__CPROVER_ensures(nv_thrown ==> (MAND)) \
+__CPROVER_ensures(((NV_RET == NULL || nv_thrown) && NV_G_IN(v)) ==> NV_NAME_AT(v, nv_g_par) != name.id) \
+__CPROVER_ensures((NV_RET != NULL && 0 <= nv_g_par && nv_g_par < nv_w_find_par) ==> NV_NAME_AT(v, nv_g_par) != name.id)
+#define NV_CONTRACT_FIND_PARAM \
+__CPROVER_requires(!nv_thrown && __CPROVER_is_fresh(parameters, sizeof(*parameters)) && NV_PARAMS_OK(*parameters)) \
+__CPROVER_assigns(nv_thrown, nv_w_find_par) \
+NV_POST_LOOKUP(*parameters, mandatory)
+#define NV_CONTRACT_find_param NV_CONTRACT_FIND_PARAM
+#define NV_CONTRACT_find_param_c NV_CONTRACT_FIND_PARAM
+#define NV_CONF_REQ __CPROVER_requires(!nv_thrown && __CPROVER_is_fresh(self, sizeof(*self)) && NV_PARAMS_OK(self->m_parameters))
+#define NV_CONTRACT_LOOKUP(MAND) NV_CONF_REQ __CPROVER_assigns(nv_thrown, nv_w_find_par) NV_POST_LOOKUP(self->m_parameters, MAND)
+#define NV_CONTRACT_configurable_parameter NV_CONTRACT_LOOKUP(1)
+#define NV_CONTRACT_configurable_parameter_c NV_CONTRACT_LOOKUP(1)
+#define NV_CONTRACT_configurable_parameter_if NV_CONTRACT_LOOKUP(0)
+#define NV_CONTRACT_configurable_parameter_if_c NV_CONTRACT_LOOKUP(0)
+
+#define NV_RANGE_EQ(EQ, a, b) (EQ((a).m_value, (b).m_value) && EQ((a).m_min, (b).m_min) && EQ((a).m_max, (b).m_max) && \
+                               (a).m_mincomp.index == (b).m_mincomp.index && (a).m_maxcomp.index == (b).m_maxcomp.index)
+#define NV_PAIR_EQ(EQ, a, b) (EQ((a).m_value1, (b).m_value1) && EQ((a).m_value2, (b).m_value2) && EQ((a).m_min, (b).m_min) && EQ((a).m_max, (b).m_max) && \
+                              (a).m_mincomp.index == (b).m_mincomp.index && (a).m_valcomp.index == (b).m_valcomp.index && (a).m_maxcomp.index == (b).m_maxcomp.index)
+#define NV_PARAM_EQ(a, b) ((a).m_name.id == (b).m_name.id && (a).m_storage.index == (b).m_storage.index && \
+    (a).m_storage.a1.m_value.id == (b).m_storage.a1.m_value.id && (a).m_storage.a1.m_domain.p == (b).m_storage.a1.m_domain.p && \
+    (a).m_storage.a1.m_domain.n == (b).m_storage.a1.m_domain.n && NV_RANGE_EQ(NV_EQ_I, (a).m_storage.a2, (b).m_storage.a2) && \
+    NV_RANGE_EQ(NV_EQ_F, (a).m_storage.a3, (b).m_storage.a3) && NV_PAIR_EQ(NV_EQ_I, (a).m_storage.a4, (b).m_storage.a4) && \
+    NV_PAIR_EQ(NV_EQ_F, (a).m_storage.a5, (b).m_storage.a5) && (a).m_storage.a6.id == (b).m_storage.a6.id)
+/* (a predicate function, not a macro: the expanded comparison at a symbolic index stalls cbmc's symbolic execution) */
+static _Bool nv_param_eq(const struct nv_parameter* a, const struct nv_parameter* b) { return NV_PARAM_EQ(*a, *b); }
+#define NV_CONTRACT_configurable_register_parameter \
+NV_CONF_REQ \
+__CPROVER_assigns(nv_thrown, nv_w_find_par, self->m_parameters.n, self->m_parameters.p[self->m_parameters.n]) \
+__CPROVER_ensures(nv_thrown ==> (self->m_parameters.n == NV_OLD(self->m_parameters.n) && 0 <= nv_w_find_par && nv_w_find_par < self->m_parameters.n && \
+                                 NV_NAME_AT(self->m_parameters, nv_w_find_par) == parameter.m_name.id)) \
+__CPROVER_ensures(!nv_thrown ==> (self->m_parameters.n == NV_OLD(self->m_parameters.n) + 1 && \
+                                  nv_param_eq(&self->m_parameters.p[self->m_parameters.n - 1], &parameter))) \
+__CPROVER_ensures((!nv_thrown && 0 <= nv_g_par && nv_g_par < self->m_parameters.n - 1) ==> NV_NAME_AT(self->m_parameters, nv_g_par) != parameter.m_name.id) \
+__CPROVER_ensures(self->m_parameters.p == NV_OLD(self->m_parameters.p))
+
 #endif
